@@ -309,22 +309,6 @@ def cleanField (v : Bytes) : Bool := trim v = v && !v.contains LF
 def cleanEvent (e : Event) : Bool :=
   cleanField e.name && cleanField e.id && cleanField e.retry && cleanField e.data && !e.isEmpty
 
-mutual
-/-- well-formed content value: what `content_roundtrip` quantifies over -/
-partial def wfContent : Content → Bool
-  | .text _ _ a => wfAnn a
-  | .image _ _ _ a => wfAnn a
-  | .audio _ _ _ a => wfAnn a
-  | .link _ _ _ _ _ sz _ a ic => wfAnn a && cAllObj ic && (match sz with | some n => inInt64 n | none => true)
-  | .resource r _ a => wfAnn a && wfAnn r
-  | .toolUse .. => true
-  | .toolResult _ cs st _ _ => st != some .null && cs.all (fun c => wfContent c && allowed allowNested c.kind)
-partial def wfAnn : Option JVal → Bool
-  | none => true
-  | some (.obj _) => true
-  | _ => false
-end
-
 /-- Is a failure of `reqOK` located inside a nested `content` array (the F8 shape)? -/
 def reqTopOK : JVal → Bool
   | .obj kvs =>
@@ -389,8 +373,7 @@ def setPath : List Bytes → JVal → JVal → JVal
 /-! ## ioConn monitor state (independent of the model state) -/
 
 structure MBatch where
-  calls : List Id
-  got : List (Id × Msg) := []
+  slots : Slots
   hasNotif : Bool := false
 
 structure DState where
@@ -423,7 +406,7 @@ def isNotifW : JVal → Bool
 def wellFormedBatch (d : DState) (elems : List JVal) : Bool :=
   let calls := elems.filterMap isCallW
   elems ≠ [] && elems.all (fun e => validWire e && noDupKeys e) && calls.eraseDups.length = calls.length &&
-  calls.all (fun c => d.mopen.all (fun b => !(b.calls.contains c && (alookup c b.got).isNone)))
+  calls.all (fun c => d.mopen.all (fun b => !slotPending b.slots c))
 
 def showWriteOut : WriteOut → String
   | .nothing => "nothing"
@@ -439,23 +422,25 @@ def showRErr : RErr → String
   | .seenId => "seen"
   | .eof => "eof"
 
-/-- monitor step for a response written through `ioConn.Write`: what the abstract spec expects -/
+/-- monitor step for a message written through `ioConn.Write`: what the abstract spec (`specWrite`,
+the one `batch_exactly_once` is proved against) expects; also whether the batch concerned held a
+notification (to name F2). -/
 def monWrite (open_ : List MBatch) (msg : Msg) : List MBatch × SOut × Bool :=
-  match msg with
-  | .request .. => (open_, .single msg, false)
-  | .response id _ _ =>
-    let rec go : List MBatch → List MBatch × SOut × Bool
-      | [] => ([], .single msg, false)
-      | b :: bs =>
-        if b.calls.contains id && (alookup id b.got).isNone then
-          let got := b.got ++ [(id, msg)]
-          if b.calls.all (fun c => (alookup c got).isSome) then
-            (bs, .array (b.calls.filterMap (fun c => alookup c got)), b.hasNotif)
-          else ({ b with got := got } :: bs, .nothing, b.hasNotif)
-        else
-          let (bs', o, n) := go bs
-          (b :: bs', o, n)
-    go open_
+  let (sp', out) := specWrite (open_.map (·.slots)) msg
+  let hasNotif := match msg with
+    | .response id _ _ => ((open_.find? (fun b => slotPending b.slots id)).map (·.hasNotif)).getD false
+    | _ => false
+  -- re-attach the flags: a closed batch disappears, a filled one keeps its place
+  let open' : List MBatch :=
+    if sp'.length = open_.length then (List.zip sp' open_).map (fun p => { p.2 with slots := p.1 })
+    else match msg with
+      | .response id _ _ =>
+        let rec drop : List MBatch → List MBatch
+          | [] => []
+          | b :: t => if slotPending b.slots id then t else b :: drop t
+        drop open_
+      | _ => open_
+  (open', out, hasNotif)
 
 def pfx (d : DState) (s : String) : String := d.pid ++ ": " ++ s
 
@@ -732,7 +717,7 @@ def stepWire (d : DState) (toks : List String) (impl : String) : DState × Verdi
                 | some m, e :: _ => same m e "first"
                 | _, _ => none
               let d := { d with mexpect := (elems.drop 1).take implQ }
-              let d := if isBatch && calls ≠ [] then { d with mopen := d.mopen ++ [{ calls := calls, hasNotif := hasNotif }] } else d
+              let d := if isBatch && calls ≠ [] then { d with mopen := d.mopen ++ [{ slots := calls.map (fun c => (c, none)), hasNotif := hasNotif }] } else d
               (d, v, none)
             else
               let f2 := isBatch && hasNotif && (impl.startsWith "err dup" || impl.startsWith "err seen")
